@@ -60,6 +60,8 @@ type Unit struct {
 	SpecConsts  map[string]Sort // spec-level constants (declared by the unit's prelude)
 	OpaquePreds map[string]bool // defpreds whose defining axiom is withheld in this unit
 	NoSplit     map[string]bool // preds that are not split into per-conjunct obligations
+	OpaqueExternals bool        // calls to functions outside the package without a contract are opaque user code
+	SkipSMT     bool            // the raw SMT axioms of the contract file are withheld (closure units do not need the sequence theory)
 	PanicIsExit bool            // an explicit panic ends the process (allowed) instead of being a safety violation
 	defAxioms   string
 	defAxiomsDone bool
@@ -430,6 +432,9 @@ func (u *Unit) preludeText() string {
 	var sb strings.Builder
 	sb.WriteString("(declare-sort Str 0)\n(declare-const str_empty Str)\n")
 	sb.WriteString("(declare-datatypes ((Slice 0)) (((mk_Slice (sl_base Int) (sl_off Int) (sl_len Int) (sl_cap Int)))))\n")
+	// element index of a slice: off + i behind an uninterpreted symbol, so that quantified clauses over
+	// s[j] get arithmetic-free patterns
+	sb.WriteString("(declare-fun sidx (Int Int) Int)\n(assert (forall ((o Int) (i Int)) (! (= (sidx o i) (+ o i)) :pattern ((sidx o i)))))\n")
 	for _, n := range u.dtOrder {
 		dt := u.datatypes[n]
 		var fs []string
@@ -472,14 +477,19 @@ func (u *Unit) preludeText() string {
 		}
 		fmt.Fprintf(&sb, "(declare-fun %s (%s) %s)\n", sym(n), strings.Join(ps, " "), rs)
 	}
-	sb.WriteString(u.defPredAxioms())
-	for _, x := range u.CS.SMT {
-		sb.WriteString(x)
-		sb.WriteString("\n")
-	}
 	for _, p := range u.Prelude {
 		sb.WriteString(p)
 		sb.WriteString("\n")
+	}
+	sb.WriteString(u.defPredAxioms())
+	if !u.SkipSMT {
+		for i, x := range u.CS.SMT {
+			if g := u.CS.SMTGroup[i]; g != "" {
+				sb.WriteString(";;GROUP " + g + " ")
+			}
+			sb.WriteString(x)
+			sb.WriteString("\n")
+		}
 	}
 	return sb.String()
 }
@@ -501,8 +511,20 @@ func (u *Unit) paramSort(p ParamDecl) Sort {
 	if p.Sort != "" {
 		return p.Sort
 	}
-	if id, ok := p.Type.(*ast.Ident); ok && id.Name == "bool" {
-		return SBool
+	if id, ok := p.Type.(*ast.Ident); ok {
+		switch id.Name {
+		case "bool":
+			return SBool
+		case "runes", "ints":
+			return arr(SInt, SInt)
+		case "string", "str":
+			return SStr
+		}
+		if obj, ok := u.Pkg.Types.Scope().Lookup(id.Name).(*types.TypeName); ok {
+			if _, isStruct := obj.Type().Underlying().(*types.Struct); isStruct && !u.isHeapStruct(obj.Type()) {
+				return u.sortOf(obj.Type())
+			}
+		}
 	}
 	return SInt
 }
